@@ -357,6 +357,9 @@ def child_main():
                     env.heap.append(engine.exec_op(env, op))
             for i in t["dependents"]:
                 res["obs"][str(i)] = engine.slot_obs(env, i, inprocess=False)
+            # ablation in the same interpreter: the same script WITHOUT the restart (slot k built natively)
+            env2 = engine.execute(program, share_tables=st)
+            res["native"] = {str(i): engine.slot_obs(env2, i, inprocess=False) for i in t["dependents"]}
         except BaseException as e:  # noqa: BLE001
             res["error"] = type(e).__name__ + ": " + str(e)[:200]
         out.append(res)
@@ -409,11 +412,12 @@ def restart_check(seed, runs, hashseed):
             if a.get("injected") or r.get("skipped"):
                 continue
             d = obs.diff(a, r)
+            if d and obs.diff(o["native"][str(i)], r):
+                continue  # differs without any restart too: builder history (C01), not C15
             if d:
                 what = "restored" if i == t["k"] else "continuation"
                 sig = f"{PROP}:restart:{what}:{t['src_class']}"
-                keep = sorted(set(lang.cone(t["program"], i)) | set(lang.cone(t["program"], t["k"])))
-                prog2, mp = shrink.slice_program(t["program"], keep)
+                prog2, mp = t["program"], {j: j for j in range(len(t["program"]))}
                 viol.append((sig, dict(property=PROP, kind="restart", seed=seed, run=t["run"], signature=sig,
                                        program=prog2, k=mp[t["k"]], victim=mp[i], st=t["st"], proto=t["proto"],
                                        hashseed=hashseed, differs_on=d[:8],
@@ -436,7 +440,7 @@ def replay_restart(payload):
     if "error" in o:
         return True, payload["signature"]
     r = engine.reference_obs(program, v, st, inprocess=False)
-    if obs.diff(o["obs"][str(v)], r):
+    if obs.diff(o["obs"][str(v)], r) and not obs.diff(o["native"][str(v)], r):
         return True, payload["signature"]
     return False, "not reproduced"
 
